@@ -141,6 +141,16 @@ Definition io_pins (c : bcirc) (outputs : bool) : list string :=
 Definition gates_of (l : list bstmt) : list (string * string * list string) :=
   flat_map (fun s => match s with BAssign z k a => [(z, k, a)] | BInterface _ => [] end) l.
 
+(* the statements in text order; the bench grammar does not distinguish the two interface keywords (both extend io_nodes), the
+   translator records which one was written: an interface statement counts as output(...) iff it is non-empty and all its
+   names are driven (true of every statement of the five libraries; otherwise the computed comparison below fails closed) *)
+Definition tstmts_of (outs : list string) (l : list bstmt) : list tstmt :=
+  map (fun s => match s with
+                | BAssign z k a => TGate z k a
+                | BInterface names =>
+                    if negb (nil_b names) && forallb (fun n => existsb (String.eqb n) outs) names then TOut names else TIn names
+                end) l.
+
 Definition cell_of_text (pat body : string) : option tcell :=
   match parse_bench body with
   | None => None
@@ -150,7 +160,7 @@ Definition cell_of_text (pat body : string) : option tcell :=
       | Some c =>
           if elim_ok c then
             Some {| t_pattern := pat; t_names := expand_names pat; t_ins := io_pins c false; t_outs := io_pins c true;
-                    t_gates := gates_of stmts |}
+                    t_gates := gates_of stmts; t_stmts := tstmts_of (io_pins c true) stmts |}
           else None
       end
   end.
